@@ -32,7 +32,7 @@ Definition oev (m : mem) (o : opc) : dq_ev :=
 Definition tev (m : mem) (h : tpc) : dq_ev :=
   match h with
   | TReadTop _ b => if b <? top m then DPopBase (znth (ptr m) b) else DStutter
-  | TSlot (MW false) b | TSlot MP b => DPushBase (znth (ptr m) b)   (* declined / peeked: the candidate goes back *)
+  | TDecide false b | TSlot MP b => DPushBase (znth (ptr m) b)   (* declined / peeked: the candidate goes back *)
   | TPassBase x => DPushBase x
   | _ => DStutter
   end.
@@ -124,10 +124,14 @@ Proof.
       rewrite (zseg_cons (ptr m) (base m - 1)) by lia.
       replace (base m - 1 + 1) with (base m - 0) by lia. replace (base m - 1) with b by lia. reflexivity.
     + reflexivity.
-  - destruct m0 as [|[|]|]; inversion E; subst; clear E; core_open_t C; destruct C8 as [C8 C8']; cbn [dq_step]; try reflexivity.
-    all: assert (b2z (oc o) = 0 \/ b2z (oc o) = 1) by (destruct (oc o); cbn; lia);
-      rewrite (zseg_cons (ptr m) (base m - 1)) by lia;
-      replace (base m - 1 + 1) with (base m - 0) by lia; replace (base m - 1) with b by lia; reflexivity.
+  - destruct m0 as [|d|]; inversion E; subst; clear E; core_open_t C; destruct C8 as [C8 C8']; cbn [dq_step]; try reflexivity.
+    assert (b2z (oc o) = 0 \/ b2z (oc o) = 1) by (destruct (oc o); cbn; lia).
+    rewrite (zseg_cons (ptr m) (base m - 1)) by lia.
+    replace (base m - 1 + 1) with (base m - 0) by lia. replace (base m - 1) with b by lia. reflexivity.
+  - destruct d; inversion E; subst; clear E; core_open_t C; destruct C8 as [C8 C8']; cbn [dq_step]; try reflexivity.
+    assert (b2z (oc o) = 0 \/ b2z (oc o) = 1) by (destruct (oc o); cbn; lia).
+    rewrite (zseg_cons (ptr m) (base m - 1)) by lia.
+    replace (base m - 1 + 1) with (base m - 0) by lia. replace (base m - 1) with b by lia. reflexivity.
   - destruct m0; inversion E; subst; clear E; core_open_t C; cbn [dq_step];
       replace (base m - 1) with (b - 0) by lia; reflexivity.
   - inversion E; subst; clear E. core_open_t C. reflexivity.
